@@ -75,6 +75,10 @@ def run(repo, rep, tier):
     rep.rule("R01.6", "a node that reads a cached value is nested inside the "
                       "Cache that evaluates it")
     rep.rule("R01.7", "every whitelisted TAL statement is handled")
+    rep.rule("R01.9", "G-LIVE: generated locals of the statement emitters "
+                      "that live across the element body are per-node "
+                      "(nested elements with the same statements do not "
+                      "interfere)")
 
     func = repo.func(VE)
     res = L.emission(repo, VE)
@@ -84,6 +88,7 @@ def run(repo, rep, tier):
     _chain(rep, func, steps, rest)
     _keyed(repo, rep, func)
     _skeletons(repo, rep)
+    _nesting(repo, rep)
     _sinks(repo, rep)
     _cache_scope(repo, rep, func, res, steps)
     _tables(repo, rep, func)
@@ -93,8 +98,12 @@ def run(repo, rep, tier):
 EXPECT_KIND = {
     "on-error": ["OnError"],
     "define-slot": ["DefineSlot"],
-    "case": lambda k: (k[:1] == ["Define"] and "Condition" in k and
-                       k[-1:] == ["Cancel"]),
+    # default alias; 'switch not cancelled' guard; the case expression
+    # evaluated once (Cache) only below that guard; the match test; cancel
+    "case": lambda k: (k[:1] == ["Define"] and k[-1:] == ["Cancel"] and
+                       k.count("Condition") == 2 and k.count("Cache") == 1
+                       and k.index("Condition") < k.index("Cache") <
+                       len(k) - 1 - k[::-1].index("Condition")),
     "condition": ["Condition"],
     "repeat": ["Repeat"],
     "switch": ["Cache"],
@@ -149,7 +158,8 @@ def _order(rep, func, steps, rest):
             good = exp(s["kinds"]) if callable(exp) else s["kinds"] == exp
             rep.check(good, "R01.1", site,
                       "statement '%s' is implemented by node kind %s" % (
-                          key, "Define>Condition..Cancel" if callable(exp)
+                          key, "Define>Condition(not cancelled)>Cache(case "
+                          "value)>Condition(match)>Cancel" if callable(exp)
                           else ">".join(exp)), construct="kind:" + key,
                       where=wh, detail="found %s" % s["kinds"])
             rep.check(applied_when_present(s), "R01.1", site,
@@ -360,6 +370,31 @@ def _keyed(repo, rep, func):
               detail=str([src(s) for s in stmts]))
 
 
+STATEMENT_EMITTERS = ("visit_Define", "visit_Condition", "visit_Repeat",
+                      "visit_Cache", "visit_OnError", "visit_Element",
+                      "visit_Content", "visit_Attribute",
+                      "visit_DictAttributes", "visit_OmitTag")
+
+
+def _nesting(repo, rep):
+    """'arbitrarily nested elements': an element's statements may enclose
+    elements carrying the same statements.  The render function has one
+    flat local namespace, so every generated local that an emitter writes
+    before the element body and reads after it must carry the node's
+    identity (G-LIVE) -- a name derived from user-chosen text (a variable
+    name, a value) is shared by every nested element that chose the same."""
+    comp = repo.cls("chameleon.compiler.Compiler")
+    n = 0
+    for name in STATEMENT_EMITTERS:
+        m = comp.methods.get(name)
+        if m is None:
+            continue
+        n += 1
+        L.g_live(rep, "R01.9", m, L.emission(repo, m.qualname))
+    if n < 6:
+        raise AnalysisError("statement emitters vanished (%d found)" % n)
+
+
 def _skeletons(repo, rep):
     # visit_Define: all assignments before the body
     f = repo.func(COMP + "visit_Define")
@@ -534,6 +569,34 @@ def _skeletons(repo, rep):
 
 
 def _sinks(repo, rep):
+    # 'None / nothing removes': in the dictionary form of tal:attributes an
+    # entry is dropped by identity with None only -- '', 0, False are values
+    da = repo.func(COMP + "visit_DictAttributes")
+    r = L.emission(repo, da.qualname)
+    guards = []
+    for w in A.walk(r.emission):
+        if isinstance(w, A.Frag) and w.tree is not None:
+            for n in ast.walk(w.tree):
+                if isinstance(n, ast.If) and "not in" in src(n.test):
+                    guards.append(n.test)
+    okd = False
+    detail = "no write guard found"
+    for g in guards:
+        ops = g.values if isinstance(g, ast.BoolOp) and isinstance(
+            g.op, ast.And) else [g]
+        none_tests = [o for o in ops if isinstance(o, ast.Compare)
+                      and len(o.ops) == 1 and isinstance(o.ops[0], ast.IsNot)
+                      and isinstance(o.comparators[0], ast.Constant)
+                      and o.comparators[0].value is None]
+        truthy = [o for o in ops if isinstance(o, (ast.Name, ast.Call))
+                  or (isinstance(o, ast.UnaryOp) and isinstance(
+                      o.op, ast.Not))]
+        okd = bool(none_tests) and not truthy
+        detail = src(g)
+    rep.check(okd, "R01.5", da.qualname, "a dictionary entry of "
+              "tal:attributes is dropped only when its value is None "
+              "(identity test, no truthiness test)",
+              construct="dict-none-only", where=L.where(da), detail=detail)
     res = L.emission(repo, COMP + "visit_Macro")
     names = {}
     for w in A.walk(res.emission):
